@@ -655,11 +655,13 @@ def manual_restore(src_dump, src, dsts, mode, seed, use_blobs):
             metas.append(m)
         for r in t[6]:
             hint = None if r[3] is None else bytes.fromhex(r[3])
-            md = mode if mode != 'mixed' else rnd.choice(['keep', 'none', 'bogus'])
+            md = mode if mode != 'mixed' else rnd.choice(['keep', 'none', 'bogus', 'below'])
             if md == 'none':
                 hint = None
             elif md == 'bogus' and hint is not None:
                 hint = p64(u64(hint) + 3)              # no such transaction anywhere
+            elif md == 'below' and hint is not None:
+                hint = p64(u64(hint) - 1)              # absent, just below the transaction that has the data
             data = None if r[2] is None else bytes.fromhex(r[2])
             oid, tid = bytes.fromhex(r[0]), bytes.fromhex(r[1])
             for dst, m in zip(dsts, metas):
@@ -845,11 +847,13 @@ def copy_model_lines(case, res):
             hint = r[3]
             if entry in ('manual', 'manual2'):
                 mode = case.get('hints', 'keep')
-                md = mode if mode != 'mixed' else rnd.choice(['keep', 'none', 'bogus'])
+                md = mode if mode != 'mixed' else rnd.choice(['keep', 'none', 'bogus', 'below'])
                 if md == 'none':
                     hint = None
                 elif md == 'bogus' and hint is not None:
                     hint = '%016x' % (int(hint, 16) + 3)
+                elif md == 'below' and hint is not None:
+                    hint = '%016x' % (int(hint, 16) - 1)
             d = tr(r[2])
             lines.append('rec %s %s %s %s' % (r[0], r[1], 'none' if d is None else (d or '-'), hint or 'none'))
     if case.get('range'):
@@ -1016,7 +1020,7 @@ def gen_copy_case(rng, i):
         case['entry'], case['failafter'] = 'resume', rng.randrange(0, 6)
     elif r < 0.60:
         case['entry'] = rng.choice(['manual', 'manual', 'manual2'])
-        case['hints'] = rng.choice(['keep', 'none', 'bogus', 'mixed'])
+        case['hints'] = rng.choice(['keep', 'none', 'bogus', 'below', 'mixed'])
         case['hseed'] = rng.randrange(1000)
         if case['entry'] == 'manual2':
             case['dst2'] = rng.choice(['file', 'fileblob'] if not blobsrc else ['fileblob'])
@@ -2005,9 +2009,17 @@ def finish(ck, excl):
         note='excluded = the image violates NoFalseResync / ClosedBack of recover_only_input_txns '
              '(no checksum in the format); such images are still compared with the model')
     ck.finish(
-        rule='copy: seeded storage-level histories (stores, deleteObject, undo, blobs, packs, explicit tids) '
-             'over source kinds file/file+blobs/mapping/demo x destination kinds file/file+blobs/'
-             'BlobStorage(file), whole storage or iterator(start, stop); non-trivial = the source iterator '
+        rule='copy: seeded storage-level histories (stores, deleteObject, undo, multi-undo, un-creation chains, '
+             'blobs and undone blob changes, empty transactions, packs, > 64 KiB records, 65535-byte metadata, '
+             'oids in several index buckets up to 2^64-1, voted unfinished tail, explicit tids) over source kinds '
+             'file / file+blobs / HexStorage(file[+blobs]) / ZODB.config-built file and mapping / mapping / '
+             'MVCCMappingStorage / DemoStorage (mapping|file|blob-file base, file|mapping|default changes, '
+             'pushed layer) x destination kinds file / file+blobs / BlobStorage(file) bushy and lawn / '
+             'HexStorage(file[+blobs]) / config-built file; entry points copyTransactionsFrom, BaseStorage.copy, '
+             'blob.copyTransactionsFromTo, iterator(start, stop), two-pass copies with bounds at tid and tid+-1, '
+             'a copy interrupted inside a transaction and resumed, restore/restoreBlob by hand (hints kept / '
+             'dropped / absent above / absent just below / mixed; one or two destinations in lockstep); the copy '
+             'closed and reopened (index / scan); every iterator range at every tid boundary; non-trivial = the source iterator '
              'yields at least one record with a data_txn hint (an undo record). recover: small Data.fs '
              'files x {undamaged, truncations incl. every cut inside the last transaction, overwritten '
              'windows (zero/ff/random/dots/+-1) at every field class, crafted status/tid/pointer damage}; '
@@ -2020,7 +2032,17 @@ def finish(ck, excl):
                      'destination kinds: FileStorage, FileStorage+blob_dir, BlobStorage(FileStorage); '
                      'MappingStorage has no copyTransactionsFrom/restore (probed, see coverage)',
                      'is_blob_record is uninterpreted in the model (the harness declares blob records)',
-                     'default fsrecover options (no -p, no -P)'])
+                     'the MODEL covers the default fsrecover options; -f, -v and -P (pack time before the first '
+                     'transaction, undamaged image only) must give the default output and are compared with the '
+                     'model as such; ORACLE-ONLY (no model comparison): -p (partial transactions accepted as a '
+                     'non-empty record prefix of an input transaction), the refusal to overwrite an existing '
+                     'output without -f, idempotence (recover and copyTransactionsFrom of the recovered file '
+                     'reproduce it), records beyond 40 KB in the copy part, close + reopen of the copy, the '
+                     'FileStorage-family queries len / record_iternext / undoLog / lastTid',
+                     'HexStorage destinations are compared with the model on the records as transformed '
+                     '(.h + hex); history() sizes are not compared across a record transform, and history() '
+                     'sizes / getTid / lastTid not for hand restores without usable hints (same revisions, other '
+                     'representation)'])
 
 
 if __name__ == '__main__':
